@@ -366,7 +366,7 @@ func checkC12(R *Run) {
 			}
 			cut := map[Edge]bool{}
 			nOpt := 0
-			factEdges(fn, func(e Edge, ft Fact) {
+			factEdgesImplied(fn, func(e Edge, ft Fact) {
 				if ft.Kind == "truth" {
 					if eq, ok := ft.V.(*ssa.Call); ok && calleeName(&eq.Call) == "bytes.Equal" {
 						for _, pair := range [][2]ssa.Value{{eq.Call.Args[0], eq.Call.Args[1]}, {eq.Call.Args[1], eq.Call.Args[0]}} {
